@@ -551,6 +551,13 @@ substitute_decl(CPPDeclaration::SubstDecl &subst,
  */
 CPPType *CPPScope::
 find_type(const string &name, bool recurse) const {
+  if (_struct_type != nullptr && name == get_simple_name()) {
+    // The injected-class-name: within a class (and, through the base class
+    // lookup below, within classes derived from it) the class's own name
+    // denotes the class, whatever the enclosing scopes declare.
+    return _struct_type;
+  }
+
   Types::const_iterator ti;
   ti = _types.find(name);
   if (ti != _types.end()) {
@@ -593,6 +600,13 @@ find_type(const string &name, bool recurse) const {
 CPPType *CPPScope::
 find_type(const string &name, CPPDeclaration::SubstDecl &subst,
           CPPScope *global_scope, bool recurse) const {
+  if (_struct_type != nullptr && name == get_simple_name()) {
+    // The injected-class-name, see above.
+    CPPScope *current_scope = (CPPScope *)this;
+    return _struct_type->substitute_decl
+      (subst, current_scope, global_scope)->as_type();
+  }
+
   Types::const_iterator ti;
   ti = _types.find(name);
   if (ti != _types.end()) {
